@@ -2333,7 +2333,9 @@ def _config_str(
     for (scope, selector), config in configuration_object.items():
       # The operative config records an empty entry for a macro whose use failed
       # because it was never bound: there is nothing to emit for it.
-      if (_REGISTRY[selector].wrapped == macro and  # pylint: disable=comparison-with-callable
+      # (`macro.value = ...` in the root scope has no `name = value` form: it is
+      # emitted with the ordinary bindings below.)
+      if (scope and _REGISTRY[selector].wrapped == macro and  # pylint: disable=comparison-with-callable
           'value' in config and
           _is_literally_representable(config['value'])):
         # As for parameters: never emit something that doesn't parse back.
@@ -2354,7 +2356,8 @@ def _config_str(
     for key, config in sorted_items:
       (scope, selector) = key
       configurable_ = _REGISTRY[selector]
-      if configurable_.wrapped in (macro, _retrieve_constant):  # pylint: disable=comparison-with-callable
+      if (configurable_.wrapped == _retrieve_constant or  # pylint: disable=comparison-with-callable
+          (configurable_.wrapped == macro and scope)):  # pylint: disable=comparison-with-callable
         continue
 
       minimal_selector = import_manager.minimal_selector(configurable_)
